@@ -13,7 +13,9 @@
 #define WUFFS_CONFIG__MODULE__BASE
 #define WUFFS_CONFIG__MODULE__ADLER32
 #define WUFFS_CONFIG__MODULE__DEMO
+#define WUFFS_CONFIG__MODULE__GIF
 #include "wuffs-std-adler32.c"
+#include "wuffs-std-gif.c"
 #include "wuffs-corpus-demo.c"
 #include "verif.h"
 
@@ -189,5 +191,66 @@ void harness_garbage_ycck(void) {
   ycck_run(s1, d1, w, h0, h1, h2, v0, v1, v2, tri);
   ycck_run(s2, d2, w, h0, h1, h2, v0, v1, v2, tri);
   for (int i = 0; i < 4 * YW_MAX * YH; i++) verif_check(d1[i] == d2[i], "garbage/ycck-scratch-contents-do-not-reach-the-pixels");
+  verif_reach("garbage/done");
+}
+
+// ---- std/gif on fixed small images: the decoder object is arbitrary memory in the second run ----
+// Concrete inputs (2x2 GIFs with and without colour tables), symbolic object memory: status,
+// consumed count and pixels must not depend on it (LEAVE_INTERNAL_BUFFERS_UNINITIALIZED).
+typedef struct {
+  const char* dic;
+  const char* df;
+  uint64_t ri;
+  uint8_t px[16];
+} gif_outcome;
+
+static void gif_run(wuffs_gif__decoder* dec, const uint8_t* ptr, size_t len, gif_outcome* o) {
+  wuffs_base__io_buffer src = wuffs_base__ptr_u8__reader((uint8_t*)ptr, len, true);
+  wuffs_base__image_config ic = ((wuffs_base__image_config){});
+  o->df = NULL;
+  o->ri = 0;
+  for (int i = 0; i < 16; i++) o->px[i] = 0x11;
+  o->dic = wuffs_gif__decoder__decode_image_config(dec, &ic, &src).repr;
+  if (o->dic) return;
+  wuffs_base__pixel_config__set(&ic.pixcfg, WUFFS_BASE__PIXEL_FORMAT__BGRA_NONPREMUL, WUFFS_BASE__PIXEL_SUBSAMPLING__NONE, 2, 2);
+  wuffs_base__pixel_buffer pb = ((wuffs_base__pixel_buffer){});
+  verif_check(wuffs_base__pixel_buffer__set_from_slice(&pb, &ic.pixcfg, wuffs_base__make_slice_u8(o->px, 16)).repr == NULL, "gif/pixel-buffer");
+  static uint8_t workbuf[64];
+  o->df = wuffs_gif__decoder__decode_frame(dec, &pb, &src, WUFFS_BASE__PIXEL_BLEND__SRC, wuffs_base__make_slice_u8(workbuf, sizeof workbuf), NULL).repr;
+  o->ri = src.meta.ri;
+}
+
+void harness_garbage_gif(void) {
+  // neither a global nor a local colour table
+  static const uint8_t g0[30] = {'G', 'I', 'F', '8', '9', 'a', 2, 0, 2, 0, 0x00, 0, 0, 0x2C, 0, 0, 0, 0, 2, 0, 2, 0, 0x00, 2, 3, 0x44, 0x34, 0x05, 0, 0x3B};
+  // a four-entry global colour table
+  static const uint8_t g1[42] = {'G', 'I', 'F', '8', '9', 'a', 2, 0, 2, 0, 0x81, 0, 0, 0xFF, 0, 0, 0, 0xFF, 0, 0, 0, 0xFF, 0xFF, 0xFF, 0xFF, 0x2C, 0, 0, 0, 0, 2, 0, 2, 0, 0x00, 2, 3, 0x44, 0x34, 0x05, 0, 0x3B};
+  // a two-entry local colour table only (indexes 2 and 3 are beyond it)
+  static const uint8_t g2[36] = {'G', 'I', 'F', '8', '9', 'a', 2, 0, 2, 0, 0x00, 0, 0, 0x2C, 0, 0, 0, 0, 2, 0, 2, 0, 0x80, 1, 2, 3, 4, 5, 6, 2, 3, 0x44, 0x34, 0x05, 0, 0x3B};
+  uint64_t which = nondet_u64();
+  verif_assume(which < 3);
+  which = verif_conc(which);
+  uint8_t img[44];
+  size_t len;
+  if (which == 0) {
+    len = sizeof g0;
+    for (size_t i = 0; i < sizeof g0; i++) img[i] = g0[i];
+  } else if (which == 1) {
+    len = sizeof g1;
+    for (size_t i = 0; i < sizeof g1; i++) img[i] = g1[i];
+  } else {
+    len = sizeof g2;
+    for (size_t i = 0; i < sizeof g2; i++) img[i] = g2[i];
+  }
+  static wuffs_gif__decoder a, b;
+  gif_outcome ra, rb;
+  verif_check(wuffs_gif__decoder__initialize(&a, sizeof a, WUFFS_VERSION, 0).repr == NULL, "garbage/init-1");
+  gif_run(&a, img, len, &ra);
+  verif_garbage(&b, sizeof b);
+  verif_check(wuffs_gif__decoder__initialize(&b, sizeof b, WUFFS_VERSION, WUFFS_INITIALIZE__LEAVE_INTERNAL_BUFFERS_UNINITIALIZED).repr == NULL, "garbage/init-2");
+  gif_run(&b, img, len, &rb);
+  verif_check(ra.dic == rb.dic && ra.df == rb.df, "garbage/gif-same-status");
+  verif_check(ra.ri == rb.ri, "garbage/gif-same-consumed-count");
+  for (int i = 0; i < 16; i++) verif_check(ra.px[i] == rb.px[i], "garbage/gif-same-pixels");
   verif_reach("garbage/done");
 }
